@@ -23,7 +23,8 @@ MANIFEST = dict(
          "into reads, oracles agreeing on each operation's own paths: the emitter queues the contracts and they replay to the "
          "final tree), C20_win_flavour_F11 (every event has the right File/Dir flavour except deleted-directory events = F11), "
          "C20_win_replay_history and C20_win_history (per-step oracles). FSEvents emitter: "
-         "C20_fsevents_flat(+_depth) for every batch; C20_fsevents_contract (all operations, one operation per batch, no "
+         "C20_fsevents_flat(+_depth) for every batch; C20_fsevents_created_removed_forgets (the created-and-removed branch leaves "
+         "the inode out of _fs_view - needed under sticky per-item flags across batch cuts and inode re-use); C20_fsevents_contract (all operations, one operation per batch, no "
          "coalescing, recursive or not), C20_fsevents_replay, C20_fsevents_history (emitter over whole histories with the "
          "_fs_view carried along, under no-inode-reuse - necessity shown by C20_fsevents_inode_reuse_refuted); multi-operation "
          "batches: C20_fsevents_batch_partial under the exact hypotheses batch_ok (stat_ok, no_partner, covers), "
